@@ -41,9 +41,22 @@ def copy_root(body, op, depth=8):
     return l
 
 
+def recv_roles(rb):
+    """the roles of RecvBuf::recv's variables, found by type and use rather than by name:
+    data = the Bytes parameter, offset = the u64 parameter, start (cursor) = the local handed to Segment::new_with_data as offset"""
+    datas = [l for l in range(1, rb.argc + 1) if rb.local_ty(l).strip().endswith("bytes::Bytes")]
+    offs = [l for l in range(1, rb.argc + 1) if rb.local_ty(l).strip() == "u64"]
+    starts = set()
+    for i, t in rb.calls():
+        if callee(t).endswith("Segment::new_with_data") and t["args"]:
+            r = copy_root(rb, t["args"][0])
+            if r is not None:
+                starts.add(r)
+    return sorted(starts), datas, offs
+
+
 def recv_cursor_coupling(ctx, rid, rb):
-    starts = rb.locals_named("start")
-    datas = rb.locals_named("data")
+    starts, datas, _offs = recv_roles(rb)
     heads = sorted(set(v for u in rb.live_blocks() for v in rb.succ(u) if rb.dominates(v, u)))
     W = set(i for (i, j, p, rv, line) in rb.assigns() if len(p) == 1 and p[0] in starts and i not in (0,))
     cuts = []
@@ -90,8 +103,7 @@ def run(ctx):
     if rb:
         recv_cursor_coupling(ctx, "R1", rb)
         # ------------------------------------------------------------ R2
-        starts = set(rb.locals_named("start"))
-        datas = set(rb.locals_named("data"))
+        starts, datas = set(recv_roles(rb)[0]), set(recv_roles(rb)[1])
         news = [(i, t) for i, t in rb.calls() if callee(t).endswith("Segment::new_with_data")]
         ctx.floor("R2", "Segment::new_with_data sites in recv", len(news), 2)
         seg_locals = set()
@@ -107,7 +119,7 @@ def run(ctx):
                             piece = True
                     if jj != "term" and rv[0] == "use" and op_place(rv[1]) and op_place(rv[1])[0] in datas:
                         piece = True
-            ok = r0 in starts and piece
+            ok = r0 in starts and len(starts) == 1 and len(rb.defs_of(r0)) >= 3 and piece
             if len(t["dest"]) == 1:
                 seg_locals.add(t["dest"][0])
             ctx.ob("R2", "%s|segment #%d = (start, piece of data)" % (rb.short, news.index((i, t)) + 1), ok, rb.where(t["line"]),
@@ -132,7 +144,11 @@ def run(ctx):
                             mono = True
             ctx.ob("R3", "%s|largest_offset = max(largest_offset, ..) #%d" % (b.short, ws.index((b, i, j, p, rv, line)) + 1), mono, b.where(line),
                    "written value is max(old value, segment end): %s" % mono)
-        prev = rb.locals_named("previous_largest")
+        # the value largest_offset had on entry: a local whose only definition copies the field, in a block before every write
+        prev = [l for l in range(rb.argc + 1, len(rb.locals))
+                if len(rb.defs_of(l)) == 1 and rb.defs_of(l)[0][1] != "term" and rb.defs_of(l)[0][2][0] == "use" and
+                op_place(rb.defs_of(l)[0][2][1]) is not None and place_has_field(op_place(rb.defs_of(l)[0][2][1]), "RecvBuf", "largest_offset")
+                and rb.defs_of(l)[0][0] == 0]
         wblocks = [i for (b, i, j, p, rv, line) in ws]
         ret_ok = False
         for (i, j, p, rv, line) in rb.assigns():
@@ -156,7 +172,7 @@ def run(ctx):
         # ------------------------------------------------------------ R6
         heads = sorted(set(v for u in rb.live_blocks() for v in rb.succ(u) if rb.dominates(v, u)))
         in_loop = set(x for x in rb.live_blocks() if any(x in rb.reachable_from(h) and h in rb.reachable_from(x) for h in heads))
-        offs = [l for l in rb.locals_named("offset") if 1 <= l <= rb.argc]
+        offs = recv_roles(rb)[2]
         uses = []
         for x in sorted(in_loop):
             for s_ in rb.stmts(x):
@@ -183,7 +199,7 @@ def run(ctx):
         # ------------------------------------------------------------ R7
         heads7 = sorted(set(v for u in rb.live_blocks() for v in rb.succ(u) if rb.dominates(v, u)))
         in_loop7 = set(x for x in rb.live_blocks() if any(x in rb.reachable_from(h) and h in rb.reachable_from(x) for h in heads7))
-        st = set(rb.locals_named("start"))
+        st = set(recv_roles(rb)[0])
         srcs = set()
         ndefs = 0
         for l in st:
@@ -196,10 +212,10 @@ def run(ctx):
                     for pl in deep_places(rb, o, 5):
                         srcs |= set(place_fields(pl))
                         if 1 <= pl[0] <= rb.argc:
-                            srcs.add("arg:%s" % rb.local_name(pl[0]))
+                            srcs.add("arg:offset" if pl[0] in recv_roles(rb)[2] else "arg:%d" % pl[0])
                         for og in rb.trace_local(pl[0]):
                             if og[0] == "arg":
-                                srcs.add("arg:%s" % rb.local_name(og[1]))
+                                srcs.add("arg:offset" if og[1] in recv_roles(rb)[2] else "arg:%d" % og[1])
         ctx.ob("R7", "%s|`start` enters the loop as a function of offset and nread" % rb.short,
                ndefs >= 1 and "nread" in srcs and "arg:offset" in srcs, rb.where(),
                "definitions of `start` before the loop: %d; they depend on: %s — if the cursor can start below nread the part of a "
